@@ -57,7 +57,7 @@ def run(ctx):
             cases.append(dict(db=big, q=dict(**{"from": f}, where=[], list=star, group=[], order=[], limit=-1, offset=-1, style=b % 8), _t=("big", b)))
     pool = vlib.WorkerPool(ctx, binary)
     try:
-        semlib.execute(ctx, pool, cases, lambda c: c["_t"])
+        semlib.execute(ctx, pool, cases, lambda c: c["_t"], history=random.Random(ctx.seed + 6))
     finally:
         pool.close()
     kinds = {}
